@@ -99,6 +99,7 @@ class Verdict:
         self.unsupported = False
         self.bad_refs = set()     # Manifest files for which some accepted Manifest holds a MANIFEST entry that does not match
         self.chain_why = {}
+        self.partial = set()      # broken links that DO match the entry of one accepted parent Manifest and fail another's
 
     def as_dict(self):
         return {'kind': self.kind, 'offending': dict(sorted(self.offending.items())),
@@ -200,6 +201,8 @@ class Model:
                 if whys:
                     v.chain.append(full)
                     v.chain_why[full] = whys[0]
+                    if len(whys) < len(cand[full]):
+                        v.partial.add(full)
                     continue
                 sub, raw = self.read_manifest(full)
                 if sub is None:
